@@ -641,8 +641,6 @@ class Engine:
             sp = self.builtin_mod.SPECIAL_FORMS.get(n.func.id)
             if sp is not None and not self.shadowed(n.func.id, st):
                 return sp(self, n, st)
-        if any(k.arg is None for k in n.keywords):
-            raise Unsupported("**kwargs at call site")
         out = []
         for s, fv in self.ev(n.func, st):
             if isinstance(fv, Raised):
@@ -656,7 +654,27 @@ class Engine:
                     if isinstance(kvals, Raised):
                         out.append((s2, kvals))
                         continue
-                    kwargs = {k.arg: v for k, v in zip(n.keywords, kvals)}
+                    kwargs = {}
+                    dup = None
+                    for k, v in zip(n.keywords, kvals):
+                        if k.arg is not None:
+                            dup = dup or (k.arg if k.arg in kwargs else None)
+                            kwargs[k.arg] = v
+                            continue
+                        # **mapping: a dict with concrete string keys (in insertion order)
+                        o = s2.heap.get(v.oid) if isinstance(v, VRef) else None
+                        if o is None or o.kind != "dict":
+                            raise Unsupported("**kwargs at a call site from a value that is not a concrete-keyed dict")
+                        for kk, vv in o.f["items"].values():
+                            ks = z3.simplify(kk.e) if isinstance(kk, VStr) else None
+                            if ks is None or not z3.is_string_value(ks):
+                                raise Unsupported("**kwargs with a non-constant key")
+                            name = ks.as_string()
+                            dup = dup or (name if name in kwargs else None)
+                            kwargs[name] = vv
+                    if dup is not None:
+                        out.append((s2, self.raise_py(s2, TypeError, f"got multiple values for keyword argument {dup!r}")))
+                        continue
                     for s3, f3 in self.split_union(fv, s2):
                         out.extend(self.call(f3, args, kwargs, s3))
         return out
@@ -743,6 +761,8 @@ class Engine:
             return self.builtin_mod.construct(self, st, fv, args, kwargs)
         if isinstance(fv, VObj):
             return self.builtin_mod.call_opaque(self, st, fv, args, kwargs)
+        if isinstance(fv, VLive):
+            return self.builtin_mod.call_live(self, st, fv, args, kwargs)
         raise Unsupported(f"call of {fv}")
 
     def full_name(self, fv: VFunc):
@@ -754,7 +774,7 @@ class Engine:
             return [(st, VFunc("coro", fv=fv, args=list(args), kwargs=dict(kwargs), name=fv.qualname))]
         name = self.full_name(fv)
         c = self.contracts.get(name)
-        if c is not None and getattr(c, "model", None) is not None and self.current_target != name:
+        if c is not None and getattr(c, "model", None) is not None and (self.current_target != name or getattr(c, "model_on_recursion", False)):
             return c.model(self, st, fv, args, kwargs)
         if c is not None and not (self.current_target == name and not c.recursive_ok):
             return self.contract_mod.apply_contract(self, c, fv, args, kwargs, st)
